@@ -199,6 +199,10 @@ FamC08(dummy) ==
      c \in {"named", "unnamed"},
      P \in {Build(Kind(FALSE, t, TRUE), "res", pr, StepC08, NoName, ExprInit, "none") : t \in BOOLEAN,
               pr \in IF Tier = "quick" THEN {<<1>>, <<1, 1>>, <<2, 1>>, <<1, 2, 2>>, <<3, 1, 2>>, <<2, 2, 2>>} ELSE Profiles(4, 2) \cup Profiles(3, 3)}}
+  \* with a custom joiner between the threads and the step tuple: the joiner gets the handles of threads that all run already
+  \cup {Run([P EXCEPT !.opts = [joiner |-> "eager", lazy |-> "default", transpose |-> "default", path |-> "default"]], <<>>, ItemIds(P, {"and_then"})) :
+          P \in {Build(Kind(FALSE, t, TRUE), "res", pr, StepC08, NoName, ExprInit, "none") : t \in BOOLEAN,
+                   pr \in {<<1, 1>>, <<2, 1>>, <<1, 2, 2>>}}}
 
 \* nesting: callbacks that evaluate a thread-spawning macro themselves (1..3 levels); the nested threads' names
 \* are checked by TraceExec.NestEv; the specification's own events are unaffected
